@@ -228,10 +228,6 @@ package memefish
 // @   panics when true
 // @   modifies cur(p.Lexer).pos, cur(p.Lexer).Token.*, cur(p.Lexer).lastTokenKind, cur(p.Lexer).dotIdent, p.Lexer.File.lines
 
-// @ func token.QuoteSQLIdent
-// @   trusted
-// @   modifies nothing
-
 // ---------------------------------------------------------------------------------------------
 // Error handlers (recovery). r is the recovered panic value: always a non-nil *Error here.
 
